@@ -53,7 +53,7 @@ def stepSQ (s : SeqState) (fs : List String) : Option (SeqState × String) := do
     -- what gets stored on a cacheable miss is the round-tripped form of the answer
     let (m, cache0) := handleCached s.e s.cs.conf s.cache s.cs.up q
     let cache' := if cache0.length > s.cache.length then
-        { name := AGH.Bytes.lower q.name, qtype := q.qtype, msg := agedCopy { s.cs.up with answer := s.stored } } :: s.cache
+        { name := AGH.Bytes.lower q.name, qtype := q.qtype, msg := agedCopy { s.cs.up with answer := s.stored } q } :: s.cache
       else cache0
     let mOut := renderOutcome m
     let shown := (if hit then "cached:" else "fresh:") ++ classOf s.cs.conf (handle s.e s.cs.conf used q) ++ "\t" ++ mOut
